@@ -453,7 +453,7 @@ impl TestCaseConfig {
                 output.push(format!(
                     "wait: {{timeout: {}, path: {}}}",
                     duration,
-                    path.to_string_lossy(),
+                    yaml_flow_scalar(&path.to_string_lossy()),
                 ))
             } else {
                 output.push(format!("wait: {}", duration))
@@ -462,8 +462,7 @@ impl TestCaseConfig {
         if !self.environment.is_empty() {
             let mut envvars = vec![];
             for (key, value) in self.environment.iter() {
-                // TODO: this will bereak break if the value contains double quotes => use `quote-string` crate?
-                envvars.push(format!("{}: \"{}\"", key, value))
+                envvars.push(format!("{}: {}", key, yaml_double_quoted(value)))
             }
             output.push(format!("environment: {{{}}}", envvars.join(", ")));
         }
@@ -480,6 +479,46 @@ impl Display for TestCaseConfig {
     fn fmt(&self, f: &mut fmt::Formatter<'_>) -> fmt::Result {
         let out = serde_json::to_string(&self).map_err(|_| std::fmt::Error)?;
         write!(f, "{}", out)
+    }
+}
+
+/// Renders the value as double-quoted YAML scalar, in which everything that
+/// could end or alter the scalar is escaped
+fn yaml_double_quoted(value: &str) -> String {
+    let mut quoted = String::with_capacity(value.len() + 2);
+    quoted.push('"');
+    for ch in value.chars() {
+        match ch {
+            '"' => quoted.push_str("\\\""),
+            '\\' => quoted.push_str("\\\\"),
+            '\n' => quoted.push_str("\\n"),
+            '\r' => quoted.push_str("\\r"),
+            '\t' => quoted.push_str("\\t"),
+            '\u{2028}' | '\u{2029}' | '\u{feff}' => {
+                quoted.push_str(&format!("\\u{:04X}", ch as u32))
+            }
+            ch if ch.is_control() => quoted.push_str(&format!("\\u{:04X}", ch as u32)),
+            ch => quoted.push(ch),
+        }
+    }
+    quoted.push('"');
+    quoted
+}
+
+/// Renders the value as plain YAML scalar if it is safe to do so within a
+/// flow mapping, otherwise as double-quoted scalar
+fn yaml_flow_scalar(value: &str) -> String {
+    let is_plain = !value.is_empty()
+        && value
+            .chars()
+            .all(|ch| ch.is_ascii_alphanumeric() || "_-./".contains(ch))
+        && value.chars().any(|ch| ch.is_ascii_alphabetic())
+        && !value.starts_with('-')
+        && !["true", "false", "null"].contains(&value.to_lowercase().as_str());
+    if is_plain {
+        value.to_string()
+    } else {
+        yaml_double_quoted(value)
     }
 }
 
